@@ -751,7 +751,10 @@ fn settings_variants(reg: &PortableRegistry) -> Vec<SettingsSpec> {
     s1.alloc = Some("::my_crate::alloc_crate".into());
     s1.codec = false;
     v.push(s1);
-    let paths = crate::tg::item_paths(reg);
+    let paths: Vec<Vec<String>> = crate::tg::item_paths(reg)
+        .into_iter()
+        .filter(|p| p.iter().all(|seg| syn::parse_str::<syn::Ident>(seg).is_ok()))
+        .collect();
     let mut s2 = SettingsSpec::default();
     s2.root = "t".into();
     s2.alloc = Some("::alloc".into());
